@@ -63,7 +63,11 @@ class C08Prop(core.Prop):
     rule = ("used-versus-fresh twins on the real code: a manager / OpenSpiel adapter / GymABS is dirtied by a generated "
             "prefix history (1-3 episodes, each cut mid-turn, after finishes, after all-done), then reset and a follow-up "
             "episode are played under a fresh seed; a newly built copy plays the same follow-up under the same seed; the "
-            "two traces must be identical and identical to the model's; distinct by (layer, configuration, prefix, "
+            "two traces must be identical and identical to the model's; grid-world state components: a real world is "
+            "dirtied by a history of moves, attacks, deaths and resets, then a full reset (components in a random order) "
+            "and a follow-up are played; a newly built world plays the follow-up under the same tapes; the model runs it "
+            "from the fresh world's dump; wrappers and repeated placement resets: the multi-episode cases of the C13, "
+            "C14 and C20 modules, judged by their trace specifications; distinct by (layer, configuration, prefix, "
             "follow-up); non-trivial = the prefix contains at least one step and is cut before or after a finish")
     assumptions = ["the wrapped simulation's own reset forgets (stub with constant episode number; scripted gym env)",
                    "aliasing and object identity are outside the pure model; compared through observable traces only"]
